@@ -1,5 +1,6 @@
 import Simaple.Model.JsonUtil
 import Simaple.Model.Levels
+import Simaple.Model.ProviderLevels
 import Simaple.Gen.Levels
 /-! driver entry points for the level-configuration models (C16) -/
 namespace Simaple.DrvLevels
@@ -83,6 +84,25 @@ def levels (fn : String) (j : Json) : Option (Except String Json) :=
       | .ok kept => pure (Json.mkObj [("kept", Json.arr (kept.map Json.str).toArray)])
       | .error (.lowMissing n) => pure (Json.mkObj [("assert", .str ("low:" ++ n))])
       | .error (.highMissing n) => pure (Json.mkObj [("assert", .str ("high:" ++ n))])
+  | "levels_provider" => some do    -- a provider's skill_levels / hexa_improvement_levels for a profile
+      let pj ← field j "profile"
+      let p : Profile := {
+        vSkillNames := ← (← list (← field pj "v")).mapM str,
+        hexaSkillNames := ← (← list (← field pj "hexa")).mapM str,
+        hexaMastery := ← getPairs (← field pj "mastery"),
+        hexaImprovementNames := ← (← list (← field pj "imp")).mapM str }
+      let cfgs ← list (← field j "cfgs")
+      let outs ← cfgs.mapM fun cj => do
+        let c : ProviderLevels := {
+          vSkillLevel := ← int (← field cj "v"), hexaSkillLevel := ← int (← field cj "h"),
+          hexaMasteryLevel := ← int (← field cj "m"), hexaImprovementsLevel := ← int (← field cj "imp"),
+          hexaMasterySkillLevels := ← getLevels (← field cj "em"), hexaSkillLevels := ← getLevels (← field cj "eh"),
+          hexaImprovementLevels := ← getLevels (← field cj "ei") }
+        let dump (r : Except String (List (String × Int))) : Json := match r with
+          | .ok d => Json.arr (d.map fun (k, v) => Json.arr #[.str k, jint v]).toArray
+          | .error n => Json.mkObj [("assert", .str n)]
+        pure (Json.mkObj [("skill_levels", dump (c.skillLevels p)), ("improvements", dump (c.improvementLevels p))])
+      pure (Json.arr outs.toArray)
   | "levels_hexa" => some do
       let ls ← intList (← field j "levels")
       pure (Json.arr (ls.map fun l => match hexaFinalDamage l with | some v => ofRat v | none => .null).toArray)
